@@ -196,7 +196,7 @@ def run(tier, seed, replay):
                           "world": r.get("world"), "key": "replay", "input": r.get("input", "replay")})
             nruns = 8
         else:
-            n_random = 60 if thorough else 8
+            n_random = 30 if thorough else 8
             wdir = os.path.join(scratch, "worlds")
             idx_p = os.path.join(scratch, "worlds.json")
             _tool(bindir, ["worlds", "--seed", str(seed), "--n", str(n_random), "--profile", "large", "--dir", wdir, "--out", idx_p],
@@ -248,7 +248,7 @@ def run(tier, seed, replay):
                             cases.append({"backend": backend, "variant": v["name"], "flags": v["flags"], "src": inp["src"],
                                           "world": inp["world"], "key": inp["key"], "input": inp["input"], "is_wit": True})
                         continue
-                    extra = 2 if thorough else (1 if rng.chance(1, 2) else 0)
+                    extra = 1 if (thorough or rng.chance(1, 2)) else 0
                     while extra > 0 and len(chosen) < len(vs):
                         v = vs[1 + rng.below(len(vs) - 1)]
                         if v not in chosen:
